@@ -48,9 +48,9 @@ WALK_MENUS = [
 def harnesses(tier):
     hs = []
     # layer 1
-    shapes = [{"bare": "chr1"}, {"bare": "chr2"}, {"iv": [["chr1"]]}, {"iv": [["hapA"]]}, {"iv": [["chr1"], ["hapA"]]}, {"iv": [["hapB"], ["chr1"]]}]
+    shapes = [{"bare": "chr1"}, {"bare": "chr2"}, {"iv": [["chr1"]]}, {"iv": [["hap-A.1"]]}, {"iv": [["chr1"], ["hap-A.1"]]}, {"iv": [["hap_B#2"], ["chr1"]]}]
     if tier == "thorough":
-        shapes += [{"iv": [["chr1"], ["hapA"], ["chr1"]]}, {"iv": [["hapA"], ["hapA"]]}]
+        shapes += [{"iv": [["chr1"], ["hap-A.1"], ["chr1"]]}, {"iv": [["hap-A.1"], ["hap-A.1"]]}]
     for sh in shapes:
         hs.append({"id": "coord/" + json.dumps(sh, separators=(",", ":")), "params": dict(sh, kind="coord"), "timeout": 600,
                    "twin": sh.get("bare") == "chr1"})
@@ -70,6 +70,8 @@ def harnesses(tier):
     for gz in (0, 1):
         hs.append({"id": "run/bare/%s" % ("bgzf" if gz else "text"), "params": {"kind": "run", "form": "bare", "gz": gz, "walks": ["chr1", "chr1"]},
                    "timeout": 900})
+    for form in ("unstable", "stable"):
+        hs.append({"id": "run/%s/text/m1/no-final-newline" % form, "params": {"kind": "run", "form": form, "gz": 0, "walks": WALK_MENUS[1], "nonl": True}, "timeout": 600})
     hs.append({"id": "run/twice-different-graphs", "params": {"kind": "twice"}, "timeout": 900})
     hs.append({"id": "run/empty", "params": {"kind": "run", "form": "unstable", "gz": 0, "walks": []}, "timeout": 120})
     hs.append(tokfam.harness("C03", "gaftools/cli/index.py"))
@@ -137,8 +139,8 @@ def build(params):
         return Harness(args, pre, case, fuel=50)
     if params["kind"] == "twice":
         # two gaftools index runs in ONE process on different graphs that share a contig name: nothing may carry over
-        LAY2 = {"s0": ("chr1", 0, 15, 0), "s1": ("chr1", 15, 10, 0), "s2": ("chr1", 25, 5, 0), "a0": ("hapA", 100, 4, 1), "a1": ("hapA", 110, 10, 1),
-                "b0": ("hapB", 7, 2, 2)}
+        LAY2 = {"s0": ("chr1", 0, 15, 0), "s1": ("chr1", 15, 10, 0), "s2": ("chr1", 25, 5, 0), "a0": ("hap-A.1", 100, 4, 1), "a1": ("hap-A.1", 110, 10, 1),
+                "b0": ("hap_B#2", 7, 2, 2)}
 
         def case2(ps, pe, c0, c1, d0, d1):
             saved = dict(F.LAY)
@@ -178,7 +180,11 @@ def build(params):
         cookies = list(a[2 * n:])
         recs = F.records_for(form, walks, nums)
         F.GFA_ORDER[0] = list(reversed(list(F.LAY))) if params.get("revorder") else None
-        idx, lines = F.run_index(recs, cookies, gz=bool(params["gz"]))
+        F.NONL[0] = bool(params.get("nonl"))
+        try:
+            idx, lines = F.run_index(recs, cookies, gz=bool(params["gz"]))
+        finally:
+            F.NONL[0] = False
         return F.check_index(idx, recs, cookies)
 
     return Harness(args, pre, case, fuel=4 * n + 12)
@@ -224,8 +230,8 @@ def replay(params, model, wd):
         return {"reproduced": bad, "key": "C03:convert_coord:" + ("missing" if set(want) - set(got) else "extra"),
                 "what": "convert_coord(%r) over %r returned %r, overlapping segments %r" % (fields, {k: list(v) for k, v in segs.items()}, got, want), "level": "unit"}
     if params["kind"] == "twice":
-        LAY2 = {"s0": ("chr1", 0, 15, 0), "s1": ("chr1", 15, 10, 0), "s2": ("chr1", 25, 5, 0), "a0": ("hapA", 100, 4, 1), "a1": ("hapA", 110, 10, 1),
-                "b0": ("hapB", 7, 2, 2)}
+        LAY2 = {"s0": ("chr1", 0, 15, 0), "s1": ("chr1", 15, 10, 0), "s2": ("chr1", 25, 5, 0), "a0": ("hap-A.1", 100, 4, 1), "a1": ("hap-A.1", 110, 10, 1),
+                "b0": ("hap_B#2", 7, 2, 2)}
         ps, pe = a[0], a[1]
         saved = dict(F.LAY)
         try:
@@ -254,7 +260,9 @@ def replay(params, model, wd):
     nums = [(a[2 * i], a[2 * i + 1]) for i in range(n)]
     recs = F.records_for(params["form"], walks, nums)
     F.GFA_ORDER[0] = list(reversed(list(F.LAY))) if params.get("revorder") else None
+    F.NONL[0] = bool(params.get("nonl"))
     gfa, gaf, lines = F.write_real(wd, recs, gz=bool(params["gz"]))
+    F.NONL[0] = False
     out = os.path.join(wd, "x.gvi")
     err = None
     try:
